@@ -37,7 +37,7 @@ def check(run, F, tier):
     sendh = conn.handlers(F, "process_send")
     OPT = "std::option::Option"
 
-    r1 = run.rule("C14-R1", "every v5 emission is dominated by a successful size check of the emitted packet value (no growth after the check)", floor=15)
+    r1 = run.rule("C14-R1", "every v5 emission is dominated by a successful size check of the emitted packet value (no growth after the check)", floor=12)
     for (ver, kind), f in sorted(sendh.items()):
         if ver != "v5_0":
             continue
